@@ -16,6 +16,7 @@ import XrayProofs.GenConsumers
 import XrayProofs.GenProductDen
 import XrayProofs.GenLibrary
 import XrayProofs.GenPrefix
+import XrayProofs.GenChunks
 namespace XrayModel.C16
 open XrayModel.Gen
 
@@ -539,6 +540,18 @@ theorem reduce1_den (L : Option Nat) (g : G) (f : V → V → V) (vs : List V)
   cases vs with
   | nil => rfl
   | cons v rest => rw [scan1_last]
+
+/-- `chunks(n)` (library code: map(some) . add([none]) . aggregate . filter . map, `include.rs:165`) over a finite generator
+of values denotes the chunks of its list: full chunks as soon as they are full, a shorter last chunk at the end -/
+theorem iter_den_chunks (L : Option Nat) (g : G) (n : Nat) (vs : List V)
+    (h : Den L (g.start L) (vs.map Item.val)) (hc : (Permits.ofLimit L).covers (vs.length + 2)) :
+    Den L ((g.chunks n).start L) ((chunkGo n [] vs).map (fun c => Item.val (.seq c))) :=
+  chunks_den L g n vs h hc
+
+example : chunkGo 3 [] ([0, 1, 2, 3, 4, 5, 6].map V.int) =
+    [[0, 1, 2].map V.int, [3, 4, 5].map V.int, [6].map V.int] := by rfl
+example : chunkGo 2 [] ([0, 1, 2, 3].map V.int) = [[0, 1].map V.int, [2, 3].map V.int] := by rfl
+
 
 /-! ### re-iteration, for every generator expression at once -/
 
